@@ -107,6 +107,15 @@ func TestC15Stream(t *testing.T) {
 				ws = append(ws, 0) // zero-length write (gRPC variant's range)
 				ws = append(ws, 5)
 			}
+			if kind != "grpc" && s%4 == 1 {
+				// zero-length writes: "any sequence of writes"; the
+				// bytes that follow must still arrive, once
+				ws = append(ws, 0)
+				ws = append(ws, 5)
+				if s%8 == 1 {
+					ws = append(ws, 0, 0, 7)
+				}
+			}
 			if kind == "tcp" && s%5 == 0 {
 				ws = append(ws, M+1+r.Intn(70000)) // chunked transparently
 			}
